@@ -68,3 +68,32 @@ void h_roundtrip(void)
 	}
 	VT_WITNESS(in.b[0] == 0xfa && in.b[NB - 1] == (NB > 1 ? 0x07 : 0xfa));
 }
+
+/* value-level lemma for addressed multi-line text: "A:hl\nB:HL" (address digit + colon on EACH line, symbolic hex digits
+ * of either case, optional space after the colon chosen by SP) parses to exactly the two data bytes, then -1 */
+static int hexval(char ch) { return ch >= '0' && ch <= '9' ? ch - '0' : ch >= 'a' && ch <= 'f' ? ch - 'a' + 10 : ch >= 'A' && ch <= 'F' ? ch - 'A' + 10 : -1; }
+#ifndef SP
+#define SP 0
+#endif
+void h_lines(void)
+{
+	VT_LOAD();
+	char d[6];
+	for (int i = 0; i < 6; i++) { d[i] = in.s[i % (LEN + 1)]; __CPROVER_assume(hexval(d[i]) >= 0); }
+#if SP
+	char text[] = { d[0], ':', ' ', d[1], d[2], '\n', d[3], ':', ' ', d[4], d[5], 0 };
+#else
+	char text[] = { d[0], ':', d[1], d[2], '\n', d[3], ':', d[4], d[5], 0 };
+#endif
+	char *t = VT_MALLOC(sizeof(text));
+	__CPROVER_assume(t != 0);
+	for (unsigned i = 0; i < sizeof(text); i++) t[i] = text[i];
+	char *p = 0;
+	int v0 = (int)hex_get_byte_ir(t, (char *)&p);
+	int v1 = (int)hex_get_byte_ir((char *)0, (char *)&p);
+	int v2 = (int)hex_get_byte_ir((char *)0, (char *)&p);
+	VT_ASSERT(v0 == 16 * hexval(d[1]) + hexval(d[2]));
+	VT_ASSERT(v1 == 16 * hexval(d[4]) + hexval(d[5]));	/* the address prefix of the second line is skipped, not parsed as data */
+	VT_ASSERT(v2 == -1);
+	VT_WITNESS(v0 == 0xAb && d[1] == 'A' && d[2] == 'b' && d[3] == 'F');
+}
